@@ -286,7 +286,8 @@ func (m *Mint) RequestMintQuote(mintQuoteRequest nut04.PostMintQuoteBolt11Reques
 			errmsg := fmt.Sprintf("could not get mint balance from db: %v", err)
 			return storage.MintQuote{}, cashu.BuildCashuError(errmsg, cashu.DBErrCode)
 		}
-		if balance+requestAmount > m.limits.MaxBalance {
+		newBalance, overflows := cashu.OverflowAddUint64(balance, requestAmount)
+		if overflows || newBalance > m.limits.MaxBalance {
 			return storage.MintQuote{}, cashu.MintingDisabled
 		}
 	}
